@@ -299,6 +299,7 @@ type c14Scn struct {
 	responder c14Spec
 	stFail    bool
 	follow    []c14Follow
+	revokedEventObjection bool // the OnEvent handler returns an error for cert_ocsp_revoked
 }
 
 func c14b(x bool) string {
@@ -336,9 +337,20 @@ func (h *c14H) run(sc c14Scn, id string) {
 	} else if sc.override {
 		ocspCfg.ResponderOverrides = map[string]string{c14URL: "http://other-responder.verif.example/ocsp", "http://unrelated/": ""}
 	}
+	sc.revokedEventObjection = sc.via == "managed" && (len(sc.follow)+int(sc.remaining/time.Hour))%2 == 0
 	mkCfg := func() (*Cache, *Config) {
 		return vNewCfg(st, []Issuer{iss}, func(c *Config, co *CacheOptions) {
 			c.OCSP = ocspCfg
+			// an event handler that objects to the revocation event: events inform, they do not
+			// decide — the revoked certificate is replaced or removed all the same
+			if sc.revokedEventObjection {
+				c.OnEvent = func(_ context.Context, event string, _ map[string]any) error {
+					if event == "cert_ocsp_revoked" {
+						return fmt.Errorf("verif: handler objects")
+					}
+					return nil
+				}
+			}
 			co.OCSPCheckInterval = 1000000 * time.Hour // the harness drives maintenance itself
 			co.RenewCheckInterval = 1000000 * time.Hour
 		})
